@@ -1,8 +1,123 @@
+import NaijaVerif.Model.Analysis
+import NaijaVerif.Model.CfgCount
+import NaijaVerif.Gen.Caps
+import NaijaVerif.Driver.AstIO
 import NaijaVerif.Driver.Util
-/-! Family `plan` — stub (replaced by the unit that owns this family). -/
+/-!
+Family `plan` (property C03).  Request:
+```
+plan <hex src> ast=<annotated AST …> facts=<facts text>
+```
+(`harness/src/plan.rs` documents the facts text).  Answer — the same line the Rust side prints
+from the real analyses:
+```
+limit=<none|metric> warns=<kind:lo:hi,…|-> unreach=<ids|-> unusedAsg=<ids|-> unusedVar=<local ids|->
+  unusedFn=<fn ids|-> removable=<stmt ids|-> fns=<fn ids|-> cls=<N|T|I per statement|-> end=<ok|malformed>
+```
+-/
 namespace NaijaVerif.Driver.PlanD
+open NaijaVerif NaijaVerif.Driver NaijaVerif.Analysis
+
+def idList (s : String) : Option (List Nat) :=
+  if s = "-" then some [] else (s.splitOn ".").mapM (·.toNat?)
+
+def optNat (s : String) : Option (Option Nat) :=
+  if s = "_" then some none else s.toNat?.map some
+
+def records (s : String) : List String := if s = "-" then [] else s.splitOn ";"
+
+def cls? : String → Option ExprClass
+  | "N" => some .pureNoTrap | "T" => some .pureMayTrap | "I" => some .impure | _ => none
+
+def pFn (r : String) : Option FunctionInfo :=
+  match r.splitOn "," with
+  | [p, d, s, l, pc, ds] => do
+      let parent ← optNat p
+      let defStmt ← optNat d
+      let dscope ← optNat ds
+      pure { name := [], hasParams := parent.isSome, paramCount := ← pc.toNat?, parent := parent,
+             definingScope := dscope, defStmt := defStmt, localsStart := ← s.toNat?, localsLen := ← l.toNat? }
+  | _ => none
+
+def pLocal (r : String) : Option LocalInfo :=
+  match r.splitOn "," with
+  | [o, sc, d, k] => do
+      pure { name := [], owner := ← o.toNat?, declaringScope := ← sc.toNat?, declStmt := ← optNat d,
+             kind := if k = "p" then .parameter else .variable }
+  | _ => none
+
+def pScope (r : String) : Option ScopeInfo :=
+  match r.splitOn "," with
+  | [p, o] => do pure { parent := ← optNat p, owner := ← o.toNat? }
+  | _ => none
+
+def pStmt (r : String) : Option StmtEffect :=
+  match r.splitOn "," with
+  | [f, sc, rd, wr, ca, c] => do
+      pure { function := ← f.toNat?, scope := ← sc.toNat?, reads := ← idList rd, writes := ← idList wr,
+             directCallees := ← idList ca, exprClass := ← cls? c }
+  | _ => none
+
+def pDirect (r : String) : Option FunctionDirect :=
+  match r.splitOn "," with
+  | [ca, rd, wr] => do pure { directCallees := ← idList ca, captureReads := ← idList rd, captureWrites := ← idList wr }
+  | _ => none
+
+def section? (parts : List String) (key : String) : Option String :=
+  (parts.find? (·.startsWith (key ++ "="))).map (fun s => (s.drop (key.length + 1)).toString)
+
+def readFacts (s : String) : Option Facts := do
+  let parts := s.splitOn "|"
+  let fns ← (records (← section? parts "fn")).mapM pFn
+  let los ← (records (← section? parts "lo")).mapM pLocal
+  let scs ← (records (← section? parts "sc")).mapM pScope
+  let sls ← (records (← section? parts "sl")).mapM idList
+  let sts ← (records (← section? parts "st")).mapM pStmt
+  let fds ← (records (← section? parts "fd")).mapM pDirect
+  let uc ← (← section? parts "uc").toNat?
+  pure { functions := fns, scopes := scs, scopeLocals := sls, locals := los, stmtEffects := sts,
+         functionDirects := fds, userCalls := List.replicate uc (0, 0) }
+
+def ids (l : List Nat) : String :=
+  match sortDedup l with
+  | [] => "-"
+  | xs => ".".intercalate (xs.map toString)
+
+def clsStr (l : List ExprClass) : String :=
+  if l.isEmpty then "-" else String.join (l.map ExprClass.name)
+
+def warnsStr (ws : List Warn) : String :=
+  if ws.isEmpty then "-" else ",".intercalate (ws.map fun w => s!"{w.kind.name}:{w.span.lo}:{w.span.hi}")
+
+def malformed (why : String) : String :=
+  s!"limit=none warns=- unreach=- unusedAsg=- unusedVar=- unusedFn=- removable=- fns=- cls=- end=malformed:{why}"
+
+def answer (line : String) : String :=
+  let ws := words line
+  match ws with
+  | "plan" :: _ :: rest =>
+      let astToks := (rest.takeWhile (fun w => !w.startsWith "facts=")).map
+        (fun w => if w.startsWith "ast=" then (w.drop 4).toString else w)
+      let factsTok := rest.find? (·.startsWith "facts=")
+      match (AstIO.pBlock.run astToks), factsTok.bind (fun t => readFacts (t.drop 6).toString) with
+      | some (root, []), some facts =>
+          if !wf root facts then malformed "wf" else
+          let limit := match CfgCount.countProgram root facts with
+            | some counts => (Limits.firstExceeded Gen.Caps.defaults counts).map (fun (l : Limits.Limit) => l.metric.name)
+            | none => some "uncountable"
+          match limit with
+          | some m =>
+              let cls := (analyse root facts).cls
+              s!"limit={m} warns=limit:{root.span.lo}:{root.span.hi} unreach=- unusedAsg=- unusedVar=- unusedFn=- removable=- fns=- cls={clsStr cls} end=ok"
+          | none =>
+              let r := analyse root facts
+              s!"limit=none warns={warnsStr r.warns} unreach={ids r.unreach} unusedAsg={ids r.unusedAsg} unusedVar={ids (r.unusedVar.map Prod.snd)} unusedFn={ids (r.unusedFn.map Prod.snd)} removable={ids r.plan.stmts} fns={ids r.plan.fns} cls={clsStr r.cls} end=ok"
+      | none, _ => malformed "ast"
+      | some _, none => malformed "facts"
+      | some (_, _ :: _), _ => malformed "ast-trailing"
+  | _ => "bad-op"
 
 def main : IO Unit := do
-  IO.eprintln "family plan: not built yet"
+  loop (← IO.getStdin) (← IO.getStdout) () (fun _ line => ((), answer line))
 
 end NaijaVerif.Driver.PlanD
